@@ -230,6 +230,19 @@ func (sv *Solver) solveOne(c *Ctx, o Obl, timeout int, wantModel bool) OblResult
 		short = timeout
 	}
 	done := false
+	// Stage A0: for large contexts, a sliced query (relevant assumptions only) - unsat there implies unsat of the real one
+	if sq := c.slicedQuery(o, q); sq != "" {
+		st, out, ms := sv.run("z3-new", sq, short+1)
+		r.Ms += ms
+		if st == "unsat" {
+			r.Status, r.Solver, r.Output, done = "unsat", "z3-new", "sliced: "+firstLines(out, 1), true
+			qf = ""
+			q = sq
+		}
+	}
+	if done {
+		// fall through to cross-check / return
+	} else
 	if qf != "" {
 		st, out, ms := sv.run("z3-new", qf, short)
 		r.Ms += ms
@@ -242,6 +255,38 @@ func (sv *Solver) solveOne(c *Ctx, o Obl, timeout int, wantModel bool) OblResult
 		r.Status, r.Solver, r.Output = st, "z3-new", firstLines(out, 3)
 		if st == "unsat" || st == "sat" {
 			done = true
+		}
+	}
+	// Stage A2: case split on the last control-flow join: the obligation's path condition is a disjunction of edge
+	// conditions; proving the goal under each of them separately is equivalent and usually much cheaper.
+	if !done && o.splitDepth < 2 {
+		if parts := c.reachParts[o.Reach]; len(parts) > 1 && len(parts) <= 12 {
+			subs := make([]OblResult, len(parts))
+			var wg sync.WaitGroup
+			for i, pc := range parts {
+				i, pc := i, pc
+				wg.Add(1)
+				go func() {
+					defer wg.Done()
+					so := o
+					so.Reach = pc
+					so.splitDepth = o.splitDepth + 1
+					so.Parts = nil
+					subs[i] = sv.solveOne(c, so, timeout, false)
+				}()
+			}
+			wg.Wait()
+			all := true
+			for _, sr := range subs {
+				r.Ms += sr.Ms
+				if sr.Status != "unsat" {
+					all = false
+				}
+			}
+			if all {
+				r.Status, r.Solver, r.Output, done = "unsat", "split", fmt.Sprintf("case split over %d incoming paths", len(parts)), true
+				qf = ""
+			}
 		}
 	}
 	// Stage B: race the whole portfolio (z3 5.1 default and sat.euf cores, z3 4.8.12, cvc5) on the real query and on
